@@ -128,8 +128,15 @@ func persistBloom(c *Ctx) persistObj {
 }
 
 func persistCMS(c *Ctx) persistObj {
-	rows := uint(1 + c.rng.Intn(4))
-	cols := []uint{1, 2, 3, 7}[c.rng.Intn(4)]
+	return persistCMSDims(c, uint(1+c.rng.Intn(4)), []uint{1, 2, 3, 7}[c.rng.Intn(4)])
+}
+
+// rows wider than any chunk size an implementation might read or write in (8192 counters)
+func persistCMSWide(c *Ctx) persistObj {
+	return persistCMSDims(c, 1+uint(c.rng.Intn(2)), 8200+uint(c.rng.Intn(900)))
+}
+
+func persistCMSDims(c *Ctx, rows, cols uint) persistObj {
 	s, _ := gostatix.NewCountMinSketch(rows, cols)
 	pool := elemPool(c.rng, 8, false)
 	for i := 0; i < c.rng.Intn(10); i++ {
@@ -211,10 +218,23 @@ func persistCuckoo(c *Ctx) persistObj {
 			inserted = append(inserted, e)
 		}
 	}
-	// removals leave holes in the middle of buckets
-	for _, e := range inserted {
-		if c.rng.Intn(3) == 0 {
-			f.Remove(e)
+	if c.rng.Intn(4) == 0 {
+		// exactly full: every cell occupied (Length == CellSize), no removals
+		for i := 0; i < 400 && f.Length() < n*b; i++ {
+			e := []byte(fmt.Sprintf("fill-%d", i))
+			if _, _, _, ok := cuckooPos(e, n, fpl); ok {
+				safely(func() { f.Insert(e, false) })
+			}
+		}
+		if f.Length() == n*b {
+			c.branch("cuckoo-exactly-full")
+		}
+	} else {
+		// removals leave holes in the middle of buckets
+		for _, e := range inserted {
+			if c.rng.Intn(3) == 0 {
+				f.Remove(e)
+			}
 		}
 	}
 	q := func(g *gostatix.CuckooFilter) func() string {
@@ -250,12 +270,26 @@ func persistCuckoo(c *Ctx) persistObj {
 	}
 }
 
-func persistTopK(c *Ctx) persistObj {
+func persistTopK(c *Ctx) persistObj { return persistTopKWith(c, nil) }
+
+// an element longer than 64 KiB, heaviest and inserted last: it ends the image
+func persistTopKHuge(c *Ctx) persistObj {
+	big := make([]byte, 66000+c.rng.Intn(3000))
+	for i := range big {
+		big[i] = "abcdefghijklmnopqrstuvwxyz0123456789"[c.rng.Intn(36)]
+	}
+	return persistTopKWith(c, big)
+}
+
+func persistTopKWith(c *Ctx, last []byte) persistObj {
 	k := []uint{1, 2, 3, 5}[c.rng.Intn(4)]
 	er := []float64{3, 1, 0.5}[c.rng.Intn(3)]
 	acc := []float64{0.5, 0.2}[c.rng.Intn(2)]
 	t := gostatix.NewTopK(k, er, acc)
 	pool := elemPool(c.rng, 8, true)
+	if last != nil {
+		defer t.Insert(last, 1000)
+	}
 	// often fewer distinct elements than k: partially filled heap
 	nd := 1 + c.rng.Intn(len(pool))
 	for i := 0; i < c.rng.Intn(12); i++ {
@@ -324,6 +358,11 @@ func suitePersist(c *Ctx) {
 		}
 		persistCase(c, o, second)
 	}
+	for i := 0; i < c.scale(1, 4); i++ {
+		persistCase(c, persistCMSWide(c), nil)
+		b := persistBloom(c)
+		persistCase(c, persistTopKHuge(c), &b)
+	}
 }
 
 func persistCase(c *Ctx, o persistObj, second *persistObj) {
@@ -357,6 +396,9 @@ func persistCase(c *Ctx, o persistObj, second *persistObj) {
 	rkind := c.rng.Intn(4)
 	c.branch("reader-" + readerKindName(rkind))
 	t := o.fresh()
+	if c.rng.Intn(2) == 0 {
+		t.queries() // the receiving instance has been queried before (anything it cached is now stale)
+	}
 	var rn int64
 	var rerr error
 	c.pending(append(props, "C18"), o.kind+"-readfrom-kills-process", fmt.Sprintf("%s: ReadFrom of its own complete image through a %s stream ended the process (fatal runtime error)", o.kind, readerKindName(rkind)), replay)
